@@ -83,12 +83,34 @@ def check_cfg(ctx, fx, cfg):
         if kind != "plain":
             continue
         calls = [(bi, t) for bi, t in b.normal_calls() if nfa.trait_method(loops.T_RS, "refresh")(t)]
+        loop_b, loop_f, hcall = b, f, None
+        if not calls:
+            # the message pump may be a helper the loop awaits, which is given the actor and lent the context
+            for g in loops.loop_family(fx, f)[1:]:
+                if g["kind"] != "coroutine":
+                    continue
+                gc = [(bi, t) for bi, t in ctx.body(fx, g).normal_calls() if nfa.trait_method(loops.T_RS, "refresh")(t)]
+                if gc:
+                    hc = [ht for _hb, ht in b.normal_calls() if not (ht.get("callee") or "").endswith(("Future::poll", "poll_unpin")) and fx.callee_fn(ht) is not None and fx.callee_fn(ht)["def"] == g.get("parent")]
+                    if len(hc) == 1:
+                        calls, hcall = gc, hc[0]
+                        b, f = ctx.body(fx, g), g
+                    break
         if not ctx.require(len(calls) == 1, "R07.2", "one-refresh-site@" + cfg, "expected exactly one refresh call in the plain loop", fn=f["def"], site=f["loc"]):
             continue
         bi, t = calls[0]
         up = f.get("upvars", [])
         actor_idx = [i for i, u in enumerate(up) if u == "A"]
-        ctx_idx = [i for i, u in enumerate(up) if u.startswith("context::Context<")]
+        ctx_idx = [i for i, u in enumerate(up) if u.startswith(("context::Context<", "&mut context::Context<"))]
+        if hcall is not None:
+            # the helper's actor / context parameters are the loop's own actor and context
+            lup = loop_f.get("upvars", [])
+            la = [i for i, u in enumerate(lup) if u == "A"]
+            lc = [i for i, u in enumerate(lup) if u.startswith("context::Context<")]
+            okb = bool(actor_idx and ctx_idx and la and lc)
+            if okb:
+                okb = all(loops.is_actor_root(fx, loop_b, r, la) for r in roots(loop_b, hcall["args"][actor_idx[0]])) and all(r.kind == "upvar" and r.site == lc[0] for r in roots(loop_b, hcall["args"][ctx_idx[0]]))
+            ctx.require(okb, "R07.2", "refresh-helper-binding@" + cfg, "the helper that dispatches Restart is not given the loop's own actor and context", fn=loop_f["def"], site=hcall["l"])
         r0 = roots(b, t["args"][0])
         r1 = roots(b, t["args"][1])
         def is_actor(r):
@@ -109,6 +131,10 @@ def check_cfg(ctx, fx, cfg):
                 for o in rs:
                     if o.kind == "await" and any(nfa.trait_method(loops.T_RS, "refresh")(ct) for _x, ct in b.awaited_calls(o.site[0])):
                         assigned = True
+        if not assigned:
+            # the actor may live in a local of a helper (`actor = R::refresh(actor, ctx).await?` with `mut actor: A` a
+            # parameter): what refresh is given next time round includes what it handed back
+            assigned = any(o.kind == "await" and any(nfa.trait_method(loops.T_RS, "refresh")(ct) for _x, ct in b.awaited_calls(o.site[0])) for o in r0)
         if (t.get("argtys") or [""])[0].startswith("&mut "):
             # a strategy that refreshes the actor in place: the loop's actor place itself is handed over (refresh-operands)
             assigned = True
